@@ -72,10 +72,13 @@ Definition need_update (c : fmap) (u : updater) : bool :=
   | None => true
   end.
 
-(* a write as the harness sees it: (file, content read right after the call). Content code -2
-   is the literal "-1" in cpu.max, which the kernel emulation of the harness reads back as "max". *)
-Definition norm (v : Z) : Z := if v =? -2 then -1 else v.
-Definition apply_write (fs : fmap) (w : write) : fmap := set fs (fst w) (norm (snd w)).
+(* a write as the harness sees it: (file, content read right after the call). On cpu.max of
+   cgroup v2 the content code -2 is the literal "-1", which the kernel emulation of the harness
+   reads back as "max". *)
+Definition on_q (e : env) (key : Z) : bool := is_q e (kindof e key).
+Definition norm_at (e : env) (key v : Z) : Z := if on_q e key && (v =? -2) then -1 else v.
+Definition apply_write (e : env) (fs : fmap) (w : write) : fmap :=
+  set fs (fst w) (norm_at e (fst w) (snd w)).
 
 (* one iteration of the first (top-down) loop of LeveledUpdateBatch on a mergeable updater *)
 Definition merge_step (e : env) (st : state) (u : updater) : state * list write :=
@@ -88,7 +91,7 @@ Definition merge_step (e : env) (st : state) (u : updater) : state * list write 
     else
       let m := merged_value k old (uval u) in
       let w := (ukey u, if is_q e k && (m =? -1) then -2 else m) in
-      (mkSt (apply_write (sfs st) w) (set (scache st) (ukey u) m), [w])
+      (mkSt (apply_write e (sfs st) w) (set (scache st) (ukey u) m), [w])
   else (st, []).
 
 (* one iteration of the second (bottom-up) loop of LeveledUpdateBatch, which is also
@@ -100,7 +103,7 @@ Definition exact_step (e : env) (st : state) (u : updater) : state * list write 
     let c' := set (scache st) (ukey u) (if is_q e k && (uval u =? -1) then -2 else uval u) in
     if negb (is_q e k) && (cur =? uval u)
     then (mkSt (sfs st) c', [])
-    else let w := (ukey u, uval u) in (mkSt (apply_write (sfs st) w) c', [w])
+    else let w := (ukey u, uval u) in (mkSt (apply_write e (sfs st) w) c', [w])
   else (st, []).
 
 Fixpoint run (step : state -> updater -> state * list write) (st : state) (us : list updater)
@@ -147,7 +150,7 @@ Definition step_op (e : env) (st : state) (o : op) : state * list write :=
   end.
 
 (* ---------- what the property speaks about ---------- *)
-Definition apply_writes (ws : list write) (fs : fmap) : fmap := fold_left apply_write ws fs.
+Definition apply_writes (e : env) (ws : list write) (fs : fmap) : fmap := fold_left (apply_write e) ws fs.
 
 Definition edge_ok (e : env) (fs : fmap) (cp : Z * Z) : bool :=
   vle (kindof e (fst cp)) (get fs (fst cp)) (get fs (snd cp)).
